@@ -391,6 +391,32 @@ def diagnose_generated(ctx, res):
     return None
 
 
+def generated_assumptions(ctx, gen_obs, broken):
+    """-> {obligation name: [] (closed) | [axiom text]} from ONE coqc run over Gen/CostGen.vo.  The lemma inspected is
+    the corollary that USES the reflective obligation (<f>_mono_nonneg for <f>_ok, <f>_positive for <f>_pos), so that
+    the Expr soundness theorem it instantiates is covered too; the dw lemmas are inspected themselves."""
+    pairs = []
+    for name, kind, _ in gen_obs:
+        if name in broken:
+            continue
+        lemma = name[:-3] + '_mono_nonneg' if kind == 'okb' else name[:-4] + '_positive' if kind == 'posb' else name
+        pairs.append((name, lemma))
+    if not pairs:
+        return {}
+    p = os.path.join(ctx.bdir, 'assum_generated.v')
+    open(p, 'w').write('Require Import Plinio.Gen.CostGen.\n' + ''.join('Print Assumptions %s.\n' % l for _, l in pairs))
+    rc, out = coqc_file(p, 600)
+    ctx.checker_cmds.append('coqc -Q /verif/coq Plinio build/C16/assum_generated.v   (Print Assumptions of the %d generated corollaries / dw lemmas)' % len(pairs))
+    if rc != 0:
+        ctx.notes.append('Print Assumptions of the generated lemmas failed: ' + out[-800:])
+        return {}
+    blocks = [b.strip() for b in re.split(r'(?m)^(?=Closed under the global context|Axioms:|Section Variables:)', out) if b.strip()]
+    if len(blocks) != len(pairs):
+        ctx.notes.append('Print Assumptions of the generated lemmas: %d blocks for %d lemmas' % (len(blocks), len(pairs)))
+        return {}
+    return {name: ([] if b.startswith('Closed under') else [re.sub(r'\s+', ' ', b)]) for (name, _), b in zip(pairs, blocks)}
+
+
 # ----------------------------------------------------------------------------- main
 def run(ctx):
     torch = _torch()
@@ -414,8 +440,18 @@ def run(ctx):
             ctx.obligations = []
             built = ctx.build(targets=['Gen/CostGen.vo', 'Props/C16.vo'])
     gen_ok = os.path.exists(GEN_V[:-2] + '.vo') and (built or 'Gen/CostGen' not in getattr(ctx, 'broken_log', ''))
+    # Print Assumptions of the corollary behind every generated obligation (one coqc run); an obligation whose
+    # corollary is not closed under the global context does not count as discharged
+    gen_ass = generated_assumptions(ctx, gen_obs, broken) if gen_ok else {}
     for name, _, _ in gen_obs:
-        ctx.obligations.append((name, gen_ok and name not in broken, []))
+        ass = gen_ass.get(name)
+        if gen_ok and name not in broken and ass is None:
+            broken[name] = 'Print Assumptions of its corollary could not be obtained'
+        elif ass:
+            broken[name] = 'not closed under the global context: ' + '; '.join(ass)
+        ctx.obligations.append((name, gen_ok and name not in broken, ass or []))
+    ctx.extra['generated_assumptions'] = {'printed': len(gen_ass), 'closed': sum(1 for a in gen_ass.values() if a == []),
+                                          'not_closed': {k: v for k, v in gen_ass.items() if v}}
     for name in broken:
         if name not in [o[0] for o in ctx.obligations]:
             ctx.obligations.append((name, False, []))
